@@ -55,7 +55,7 @@ theorem heads_bin_false {st : CondStyle} {o : Op} (d : Doc) (hok : ok st d = tru
 /-- what the induction carries for every expression tree -/
 structure Inv (p : Profile) (I : Interp) (t : Ast) : Prop where
   ok : ok p.style (genDoc p t) = true
-  ev : evalDoc I (genDoc p t) = evalAst p I t
+  ev : ∀ els, evalAst p I els t = evalDoc I (genDoc p t)
   fl : floor p t ≤ lvl (genDoc p t)
   hn : isOpExpr p t = false → heads p.style .not (genDoc p t) = false
 
@@ -78,20 +78,25 @@ theorem heads_wrap {st : CondStyle} {o : Op} {b : Bool} {d : Doc} (h : b = false
   · simpa [wrap] using h rfl
   · exact heads_wrap_true st o d
 
+theorem binop_ok {k : PK} {o : Op} {l r : Ast} {ld rd : Doc} (hokl : ok p.style ld = true) (hokr : ok p.style rd = true)
+    (hb : o.isBin = true) (hL : parenLeft p k l = false → o.lvl ≤ lvl ld)
+    (hR : parenRight p k l r rd = false → reqR o ≤ lvl rd ∧ heads p.style o rd = false) :
+    ok p.style (binop p k o l r ld rd) = true := by
+  have hlt : o.lvl ≤ topLvl ∧ reqR o ≤ topLvl := by
+    cases o <;> simp [Op.isBin] at hb <;> simp [Op.lvl, reqR, Op.assoc, topLvl]
+  simp only [binop, ok, ok_wrap, hb, hokl, hokr, Bool.true_and, Bool.and_eq_true, decide_eq_true_eq, Bool.not_eq_true']
+  exact ⟨⟨lvl_wrap hlt.1 hL, lvl_wrap hlt.2 (fun h => (hR h).1)⟩, heads_wrap (fun h => (hR h).2)⟩
+
 theorem binop_inv {k : PK} {o : Op} {l r : Ast} (hl : Inv p I l) (hr : Inv p I r) (hb : o.isBin = true)
     (hL : parenLeft p k l = false → o.lvl ≤ floor p l)
     (hR : parenRight p k l r (genDoc p r) = false → reqR o ≤ floor p r ∧ heads p.style o (genDoc p r) = false) :
-    ok p.style (binop p k o l r (genDoc p l) (genDoc p r)) = true
-      ∧ evalDoc I (binop p k o l r (genDoc p l) (genDoc p r)) = o.sem (evalAst p I l) (evalAst p I r) := by
-  have hlt : o.lvl ≤ topLvl ∧ reqR o ≤ topLvl := by
-    cases o <;> simp [Op.isBin] at hb <;> simp [Op.lvl, reqR, Op.assoc, topLvl]
-  refine ⟨?_, ?_⟩
-  · simp only [binop, ok, ok_wrap, hb, hl.ok, hr.ok, Bool.true_and, Bool.and_eq_true, decide_eq_true_eq, Bool.not_eq_true']
-    refine ⟨⟨?_, ?_⟩, ?_⟩
-    · exact lvl_wrap hlt.1 (fun h => Nat.le_trans (hL h) hl.fl)
-    · exact lvl_wrap hlt.2 (fun h => Nat.le_trans (hR h).1 hr.fl)
-    · exact heads_wrap (fun h => (hR h).2)
-  · simp [binop, evalDoc, hl.ev, hr.ev]
+    ok p.style (binop p k o l r (genDoc p l) (genDoc p r)) = true :=
+  binop_ok hl.ok hr.ok hb (fun h => Nat.le_trans (hL h) hl.fl)
+    (fun h => ⟨Nat.le_trans (hR h).1 hr.fl, (hR h).2⟩)
+
+@[simp] theorem eval_binop (k : PK) (o : Op) (l r : Ast) (ld rd : Doc) :
+    evalDoc I (binop p k o l r ld rd) = o.sem (evalDoc I ld) (evalDoc I rd) := by
+  simp [binop, evalDoc]
 
 end Cellml.Gen
 
@@ -104,10 +109,9 @@ theorem floor_le_7 (a : Ast) : floor p a ≤ 7 := by
 
 theorem relLogic_rel {has : Bool} {o : Op} {l r : Ast} (hl : Inv p I l) (hr : Inv p I r)
     (hb : o.isBin = true) (ho : o.lvl = 3 ∨ o.lvl = 4) :
-    ok p.style (relLogic p has .relplus o l r (genDoc p l) (genDoc p r)) = true
-      ∧ evalDoc I (relLogic p has .relplus o l r (genDoc p l) (genDoc p r)) = relLogicSem p I has o (evalAst p I l) (evalAst p I r) := by
+    ok p.style (relLogic p has .relplus o l r (genDoc p l) (genDoc p r)) = true := by
   cases has
-  · simp [relLogic, relLogicSem, ok, evalDoc, hl.ok, hr.ok, hl.ev, hr.ev]
+  · simp [relLogic, ok, hl.ok, hr.ok]
   · have hm : o ≠ .minus := by intro h; subst h; simp [Op.lvl] at ho
     have hreq : reqR o ≤ 5 := by
       cases o <;> simp [Op.isBin] at hb <;> simp [Op.lvl] at ho <;> simp [reqR, Op.assoc, Op.lvl]
@@ -115,18 +119,12 @@ theorem relLogic_rel {has : Bool} {o : Op} {l r : Ast} (hl : Inv p I l) (hr : In
       (fun h => by have := floor_low (p := p) (a := l) (by simpa [parenLeft] using h); omega)
       (fun h => ⟨by have := floor_low (p := p) (a := r) (by simpa [parenRight] using h); omega,
         heads_bin_false _ hr.ok hb hm⟩)
-    simpa [relLogic, relLogicSem] using this
-
-end Cellml.Gen
-
-namespace Cellml.Gen
-variable {p : Profile} {I : Interp}
+    simpa [relLogic] using this
 
 theorem relLogic_and {has : Bool} {l r : Ast} (hl : Inv p I l) (hr : Inv p I r) :
-    ok p.style (relLogic p has .and .and l r (genDoc p l) (genDoc p r)) = true
-      ∧ evalDoc I (relLogic p has .and .and l r (genDoc p l) (genDoc p r)) = relLogicSem p I has .and (evalAst p I l) (evalAst p I r) := by
+    ok p.style (relLogic p has .and .and l r (genDoc p l) (genDoc p r)) = true := by
   cases has
-  · simp [relLogic, relLogicSem, ok, evalDoc, hl.ok, hr.ok, hl.ev, hr.ev]
+  · simp [relLogic, ok, hl.ok, hr.ok]
   · have := binop_inv (k := .and) (o := .and) hl hr rfl
       (fun h => by
         simp only [parenLeft, Bool.or_eq_false_iff] at h
@@ -134,13 +132,12 @@ theorem relLogic_and {has : Bool} {l r : Ast} (hl : Inv p I l) (hr : Inv p I r) 
       (fun h => ⟨by
         simp only [parenRight, Bool.or_eq_false_iff] at h
         exact floor_and h.1.1.1.1.1.2 h.1.1.1.2, heads_bin_false _ hr.ok rfl (by decide)⟩)
-    simpa [relLogic, relLogicSem] using this
+    simpa [relLogic] using this
 
 theorem relLogic_or {has : Bool} {l r : Ast} (hl : Inv p I l) (hr : Inv p I r) :
-    ok p.style (relLogic p has .or .or l r (genDoc p l) (genDoc p r)) = true
-      ∧ evalDoc I (relLogic p has .or .or l r (genDoc p l) (genDoc p r)) = relLogicSem p I has .or (evalAst p I l) (evalAst p I r) := by
+    ok p.style (relLogic p has .or .or l r (genDoc p l) (genDoc p r)) = true := by
   cases has
-  · simp [relLogic, relLogicSem, ok, evalDoc, hl.ok, hr.ok, hl.ev, hr.ev]
+  · simp [relLogic, ok, hl.ok, hr.ok]
   · have := binop_inv (k := .or) (o := .or) hl hr rfl
       (fun h => by
         simp only [parenLeft, Bool.or_eq_false_iff] at h
@@ -148,18 +145,20 @@ theorem relLogic_or {has : Bool} {l r : Ast} (hl : Inv p I l) (hr : Inv p I r) :
       (fun h => ⟨by
         simp only [parenRight, Bool.or_eq_false_iff] at h
         exact floor_or h.1.1.1.2, heads_bin_false _ hr.ok rfl (by decide)⟩)
-    simpa [relLogic, relLogicSem] using this
+    simpa [relLogic] using this
+
+@[simp] theorem eval_relLogic (has : Bool) (k : PK) (o : Op) (l r : Ast) (ld rd : Doc) :
+    evalDoc I (relLogic p has k o l r ld rd) = relLogicSem p I has o (evalDoc I ld) (evalDoc I rd) := by
+  cases has <;> simp [relLogic, relLogicSem, evalDoc]
 
 theorem plus_inv {l r : Ast} (hl : Inv p I l) (hr : Inv p I r) :
-    ok p.style (binop p .relplus .plus l r (genDoc p l) (genDoc p r)) = true
-      ∧ evalDoc I (binop p .relplus .plus l r (genDoc p l) (genDoc p r)) = evalAst p I l + evalAst p I r :=
+    ok p.style (binop p .relplus .plus l r (genDoc p l) (genDoc p r)) = true :=
   binop_inv (k := .relplus) (o := .plus) hl hr rfl
     (fun h => floor_low (by simpa [parenLeft] using h))
     (fun h => ⟨floor_low (by simpa [parenRight] using h), heads_bin_false _ hr.ok rfl (by decide)⟩)
 
 theorem minus_inv {l r : Ast} (hl : Inv p I l) (hr : Inv p I r) :
-    ok p.style (binop p .minus .minus l r (genDoc p l) (genDoc p r)) = true
-      ∧ evalDoc I (binop p .minus .minus l r (genDoc p l) (genDoc p r)) = evalAst p I l - evalAst p I r :=
+    ok p.style (binop p .minus .minus l r (genDoc p l) (genDoc p r)) = true :=
   binop_inv (k := .minus) (o := .minus) hl hr rfl
     (fun h => floor_low (by simpa [parenLeft] using h))
     (fun h => by
@@ -170,35 +169,35 @@ theorem minus_inv {l r : Ast} (hl : Inv p I l) (hr : Inv p I r) :
       · rw [← leads_eq_heads]; exact hlead)
 
 theorem times_inv {l r : Ast} (hl : Inv p I l) (hr : Inv p I r) :
-    ok p.style (binop p .times .times l r (genDoc p l) (genDoc p r)) = true
-      ∧ evalDoc I (binop p .times .times l r (genDoc p l) (genDoc p r)) = evalAst p I l * evalAst p I r :=
+    ok p.style (binop p .times .times l r (genDoc p l) (genDoc p r)) = true :=
   binop_inv (k := .times) (o := .times) hl hr rfl
     (fun h => by simp only [parenLeft, Bool.or_eq_false_iff] at h; exact floor_low_sum h.1 h.2)
     (fun h => by
       simp only [parenRight, Bool.or_eq_false_iff] at h
       exact ⟨floor_low_sum h.1 h.2, heads_bin_false _ hr.ok rfl (by decide)⟩)
 
+theorem divide_right {l r : Ast} (hr : Inv p I r) (h : parenRight p .divide l r (genDoc p r) = false) :
+    reqR .divide ≤ lvl (genDoc p r) ∧ heads p.style .divide (genDoc p r) = false := by
+  simp only [parenRight, Bool.or_eq_false_iff] at h
+  obtain ⟨⟨⟨⟨⟨hlow, ht⟩, hd⟩, hlb⟩, hs⟩, hu⟩ := h
+  exact ⟨Nat.le_trans (floor_divisor hlow hs (by simp [mult, ht, hd, hlb]) (by simpa [mult, Bool.and_assoc] using hu)) hr.fl,
+    heads_bin_false _ hr.ok rfl (by decide)⟩
+
 theorem divide_inv {l r : Ast} (hl : Inv p I l) (hr : Inv p I r) :
-    ok p.style (binop p .divide .divide l r (genDoc p l) (genDoc p r)) = true
-      ∧ evalDoc I (binop p .divide .divide l r (genDoc p l) (genDoc p r)) = evalAst p I l / evalAst p I r :=
-  binop_inv (k := .divide) (o := .divide) hl hr rfl
+    ok p.style (binop p .divide .divide l r (genDoc p l) (genDoc p r)) = true :=
+  binop_ok hl.ok hr.ok rfl
     (fun h => by
       simp only [parenLeft, Bool.or_eq_false_iff] at h
-      exact Nat.le_trans (by decide) (floor_low_sum h.1 h.2))
-    (fun h => by
-      simp only [parenRight, Bool.or_eq_false_iff] at h
-      obtain ⟨⟨⟨⟨⟨hlow, ht⟩, hd⟩, hlb⟩, hs⟩, hu⟩ := h
-      refine ⟨floor_divisor hlow hs (by simp [mult, ht, hd, hlb]) (by simpa [mult, Bool.and_assoc] using hu),
-        heads_bin_false _ hr.ok rfl (by decide)⟩)
+      exact Nat.le_trans (Nat.le_trans (by decide) (floor_low_sum h.1 h.2)) hl.fl)
+    (divide_right hr)
 
-end Cellml.Gen
-
-namespace Cellml.Gen
-variable {p : Profile} {I : Interp}
+/-- the `1.0/degree` of a root -/
+theorem root_degree_ok {d : Ast} (hd : Inv p I d) :
+    ok p.style (binop p .divide .divide (.cn "1.0") d (.atom false "1.0") (genDoc p d)) = true :=
+  binop_ok rfl hd.ok rfl (fun _ => by simp [lvl, Op.lvl, topLvl]) (divide_right hd)
 
 theorem minusUnary_inv {l : Ast} (hl : Inv p I l) :
     ok p.style (minusUnary p l (genDoc p l)) = true
-      ∧ evalDoc I (minusUnary p l (genDoc p l)) = -(evalAst p I l)
       ∧ 6 ≤ lvl (minusUnary p l (genDoc p l))
       ∧ (mult l = false → 7 ≤ lvl (minusUnary p l (genDoc p l))) := by
   generalize hb : (isNeg l || isRel p l || isLogical p l || isPlus l || isMinus l || isPiecewise p l || leads p (genDoc p l)) = b
@@ -216,72 +215,61 @@ theorem minusUnary_inv {l : Ast} (hl : Inv p I l) :
     exact this
   have h6 : 6 ≤ lvl (wrap b (genDoc p l)) := lvl_wrap (by decide) (fun h => (hx h).1)
   have hh : heads p.style .minus (wrap b (genDoc p l)) = false := heads_wrap (fun h => (hx h).2.1)
-  refine ⟨?_, ?_, ?_, ?_⟩
+  refine ⟨?_, ?_, ?_⟩
   · simp [minusUnary, hb, ok, hl.ok, h6, hh]
-  · simp [minusUnary, hb, evalDoc, preSem, hl.ev]
   · simp only [minusUnary, hb, lvl]; split <;> simp [unLvl]
   · intro hmu
     have h7 : 7 ≤ lvl (wrap b (genDoc p l)) := lvl_wrap (by decide) (fun h => (hx h).2.2 hmu)
     simp only [minusUnary, hb, lvl, unLvl, h7, if_true]; exact Nat.le_refl _
 
+@[simp] theorem eval_minusUnary (l : Ast) (ld : Doc) : evalDoc I (minusUnary p l ld) = -(evalDoc I ld) := by
+  simp [minusUnary, evalDoc, preSem]
+
 theorem opexpr_operand {l : Ast} (hl : Inv p I l) :
     7 ≤ lvl (wrap (isOpExpr p l) (genDoc p l)) ∧ heads p.style .not (wrap (isOpExpr p l) (genDoc p l)) = false :=
   ⟨lvl_wrap (by decide) (fun h => Nat.le_trans (floor_opexpr h) hl.fl), heads_wrap (fun h => hl.hn h)⟩
 
-theorem piece_inv (hs : Supported p) {v c : Ast} {els : Doc} {ve : Rat} (hv : Inv p I v) (hc : Inv p I c)
-    (he : ok p.style els = true) (hee : evalDoc I els = ve) :
-    ok p.style (pieceDoc p v c (genDoc p v) (genDoc p c) els) = true
-      ∧ evalDoc I (pieceDoc p v c (genDoc p v) (genDoc p c) els) = condSem (evalAst p I c) (evalAst p I v) ve := by
-  refine ⟨?_, ?_⟩
-  · simp only [pieceDoc, ok, ok_wrap, hv.ok, hc.ok, he, Bool.true_and, Bool.or_eq_true, Bool.and_eq_true, decide_eq_true_eq]
-    rcases hs.2.2.2 with h | h
-    · left; simp [h]
-    · right
-      refine ⟨⟨by simp [h], ?_⟩, ?_⟩
-      · exact lvl_wrap (by decide) (fun hh => Nat.le_trans (floor_or hh) hv.fl)
-      · exact lvl_wrap (by decide) (fun hh => Nat.le_trans (floor_or hh) hc.fl)
-  · simp [pieceDoc, evalDoc, hv.ev, hc.ev, hee]
+theorem piece_ok (hs : Supported p) {v c : Ast} {els : Doc} (hv : Inv p I v) (hc : Inv p I c)
+    (he : ok p.style els = true) : ok p.style (pieceDoc p v c (genDoc p v) (genDoc p c) els) = true := by
+  simp only [pieceDoc, ok, ok_wrap, hv.ok, hc.ok, he, Bool.true_and, Bool.or_eq_true, Bool.and_eq_true, decide_eq_true_eq]
+  rcases hs.2.2.2 with h | h
+  · left; simp [h]
+  · right
+    refine ⟨⟨by simp [h], ?_⟩, ?_⟩
+    · exact lvl_wrap (by decide) (fun hh => Nat.le_trans (floor_or hh) hv.fl)
+    · exact lvl_wrap (by decide) (fun hh => Nat.le_trans (floor_or hh) hc.fl)
 
-end Cellml.Gen
+@[simp] theorem eval_pieceDoc (v c : Ast) (vd cd els : Doc) :
+    evalDoc I (pieceDoc p v c vd cd els) = condSem (evalDoc I cd) (evalDoc I vd) (evalDoc I els) := by
+  simp [pieceDoc, evalDoc]
 
-namespace Cellml.Gen
-variable {p : Profile} {I : Interp}
-
-theorem inv_atom (lead : Bool) (s : String) (t : Ast) (hd : genDoc p t = .atom lead s) (he : evalAst p I t = atomSem I lead s)
-    (hf : floor p t = 7) : Inv p I t := by
-  refine ⟨by rw [hd]; rfl, by rw [hd, he]; rfl, ?_, fun _ => by rw [hd]; cases lead <;> rfl⟩
+theorem inv_atom (lead : Bool) (s : String) (t : Ast) (hd : genDoc p t = .atom lead s)
+    (he : ∀ els, evalAst p I els t = atomSem I lead s) (hf : floor p t = 7) : Inv p I t := by
+  refine ⟨by rw [hd]; rfl, fun els => by rw [hd, he]; rfl, ?_, fun _ => by rw [hd]; cases lead <;> rfl⟩
   rw [hd, hf]; cases lead <;> simp [lvl, unLvl, topLvl]
 
 theorem inv_call1 {t : Ast} {f : String} {a : Ast} (ha : Inv p I a) (hd : genDoc p t = .call1 f (genDoc p a))
-    (he : evalAst p I t = I.fn1 f (evalAst p I a)) : Inv p I t := by
-  refine ⟨by rw [hd]; simpa [ok] using ha.ok, by rw [hd, he]; simp [evalDoc, ha.ev], ?_, fun _ => by rw [hd]; rfl⟩
+    (he : ∀ els, evalAst p I els t = I.fn1 f (evalDoc I (genDoc p a))) : Inv p I t := by
+  refine ⟨by rw [hd]; simpa [ok] using ha.ok, fun els => by rw [hd, he]; simp [evalDoc], ?_, fun _ => by rw [hd]; rfl⟩
   rw [hd]; exact Nat.le_trans (floor_le_7 t) (by simp [lvl, topLvl])
 
 theorem inv_call2 {t : Ast} {f : String} {a b : Ast} (ha : Inv p I a) (hb : Inv p I b)
     (hd : genDoc p t = .call2 f (genDoc p a) (genDoc p b))
-    (he : evalAst p I t = I.fn2 f (evalAst p I a) (evalAst p I b)) : Inv p I t := by
-  refine ⟨by rw [hd]; simp [ok, ha.ok, hb.ok], by rw [hd, he]; simp [evalDoc, ha.ev, hb.ev], ?_, fun _ => by rw [hd]; rfl⟩
+    (he : ∀ els, evalAst p I els t = I.fn2 f (evalDoc I (genDoc p a)) (evalDoc I (genDoc p b))) : Inv p I t := by
+  refine ⟨by rw [hd]; simp [ok, ha.ok, hb.ok], fun els => by rw [hd, he]; simp [evalDoc], ?_, fun _ => by rw [hd]; rfl⟩
   rw [hd]; exact Nat.le_trans (floor_le_7 t) (by simp [lvl, topLvl])
-
-end Cellml.Gen
-
-namespace Cellml.Gen
-variable {p : Profile} {I : Interp}
-
-local macro "fsimp" : tactic =>
-  `(tactic| simp [floor, isPiecewise, isOr, isAnd, isRel, sum2, mult, isMinus, isTy, isPlus, isTimes, isDivide, isLogB, hasRight, leftOf])
 
 theorem isNul_eq {a : Ast} (h : isNul a = true) : a = .nul := by
   cases a <;> simp [isNul] at h; rfl
 
-/-- relational node: all four invariants from the two parts -/
+/-- relational node: all four invariants -/
 theorem inv_rel {t l r : Ast} {has : Bool} {o : Op} (hl : Inv p I l) (hr : Inv p I r) (hb : o.isBin = true)
     (ho : o.lvl = 3 ∨ o.lvl = 4)
     (hd : genDoc p t = relLogic p has .relplus o l r (genDoc p l) (genDoc p r))
-    (he : evalAst p I t = relLogicSem p I has o (evalAst p I l) (evalAst p I r))
+    (he : ∀ els, evalAst p I els t = relLogicSem p I has o (evalDoc I (genDoc p l)) (evalDoc I (genDoc p r)))
     (hf : has = true → floor p t = o.lvl) (hop : has = true → isOpExpr p t = true) : Inv p I t := by
-  obtain ⟨h1, h2⟩ := relLogic_rel (has := has) hl hr hb ho
-  refine ⟨by rw [hd]; exact h1, by rw [hd, he]; exact h2, ?_, ?_⟩
+  have h1 := relLogic_rel (has := has) hl hr hb ho
+  refine ⟨by rw [hd]; exact h1, fun els => by rw [hd, he]; simp, ?_, ?_⟩
   · rw [hd]; cases has
     · exact Nat.le_trans (floor_le_7 t) (by simp [relLogic, lvl, topLvl])
     · rw [hf rfl]; simp [relLogic, binop, lvl]
@@ -299,128 +287,282 @@ local macro "fsimp" : tactic =>
 local macro "osimp" : tactic =>
   `(tactic| simp [isOpExpr, isNeg, isLogical, isXor, isPower, isRoot, isPiecewise, isOr, isAnd, isRel, isMinus, isTy, isPlus, isTimes, isDivide, isLogB, hasRight])
 
+theorem hasRight_node (ty : Ty) (l r : Ast) : hasRight (.node ty l r) = !isNul r := by
+  cases r <;> rfl
+
+/-- a PIECE: any (sufficiently parenthesised) else-part may be appended -/
+structure PieceInv (p : Profile) (I : Interp) (t : Ast) : Prop where
+  ok : ∀ e, ok p.style e = true → ok p.style (setElse (genDoc p t) e) = true
+  ev : ∀ e, evalAst p I (evalDoc I e) t = evalDoc I (setElse (genDoc p t) e)
+
+/-- the right child of a PIECEWISE node -/
+structure LastInv (p : Profile) (I : Interp) (r : Ast) : Prop where
+  ok : ok p.style (elseOf p r (genDoc p r)) = true
+  ev : evalAst p I (I.atom p.nan) r = evalDoc I (elseOf p r (genDoc p r))
+
 theorem inv_all (hs : Supported p) (t : Ast) :
-    (exprOK t = true → Inv p I t)
-      ∧ (∀ ty a b, t = .node ty a b → (exprOK a = true → Inv p I a) ∧ (exprOK b = true → Inv p I b)) := by
+    (exprOK .expr t = true → Inv p I t)
+      ∧ (exprOK .piece t = true → PieceInv p I t)
+      ∧ (exprOK .last t = true → LastInv p I t)
+      ∧ (∀ ty a b, t = .node ty a b → (exprOK .expr a = true → Inv p I a) ∧ (exprOK .expr b = true → Inv p I b)) := by
   induction t with
-  | nul => exact ⟨fun h => by simp [exprOK] at h, fun _ _ _ h => by cases h⟩
-  | cn v => exact ⟨fun _ => inv_atom _ _ _ rfl rfl (by fsimp), fun _ _ _ h => by cases h⟩
-  | ci n => exact ⟨fun _ => inv_atom false n _ rfl rfl (by fsimp), fun _ _ _ h => by cases h⟩
+  | nul => exact ⟨fun h => by simp [exprOK] at h, fun h => by simp [exprOK] at h, fun h => by simp [exprOK] at h, fun _ _ _ h => by cases h⟩
+  | cn v =>
+    exact ⟨fun _ => inv_atom _ _ _ rfl (fun _ => rfl) (by fsimp), fun h => by simp [exprOK] at h, fun h => by simp [exprOK] at h,
+      fun _ _ _ h => by cases h⟩
+  | ci n =>
+    exact ⟨fun _ => inv_atom false n _ rfl (fun _ => rfl) (by fsimp), fun h => by simp [exprOK] at h, fun h => by simp [exprOK] at h,
+      fun _ _ _ h => by cases h⟩
   | node ty l r ihl ihr =>
-    refine ⟨?_, fun ty' a b h => by cases h; exact ⟨ihl.1, ihr.1⟩⟩
-    intro h
-    cases ty
-    case EQ =>
-      simp only [exprOK, Bool.and_eq_true] at h
-      exact inv_rel (o := .eq) (ihl.1 h.1) (ihr.1 h.2) rfl (Or.inl rfl) rfl rfl
-        (fun hh => by simp only [Op.lvl]; fsimp; simp [hh]) (fun hh => by osimp; simp [hh])
-    case NEQ =>
-      simp only [exprOK, Bool.and_eq_true] at h
-      exact inv_rel (o := .neq) (ihl.1 h.1) (ihr.1 h.2) rfl (Or.inl rfl) rfl rfl
-        (fun hh => by simp only [Op.lvl]; fsimp; simp [hh]) (fun hh => by osimp; simp [hh])
-    case LT =>
-      simp only [exprOK, Bool.and_eq_true] at h
-      exact inv_rel (o := .lt) (ihl.1 h.1) (ihr.1 h.2) rfl (Or.inr rfl) rfl rfl
-        (fun hh => by simp only [Op.lvl]; fsimp; simp [hh]) (fun hh => by osimp; simp [hh])
-    case LEQ =>
-      simp only [exprOK, Bool.and_eq_true] at h
-      exact inv_rel (o := .leq) (ihl.1 h.1) (ihr.1 h.2) rfl (Or.inr rfl) rfl rfl
-        (fun hh => by simp only [Op.lvl]; fsimp; simp [hh]) (fun hh => by osimp; simp [hh])
-    case GT =>
-      simp only [exprOK, Bool.and_eq_true] at h
-      exact inv_rel (o := .gt) (ihl.1 h.1) (ihr.1 h.2) rfl (Or.inr rfl) rfl rfl
-        (fun hh => by simp only [Op.lvl]; fsimp; simp [hh]) (fun hh => by osimp; simp [hh])
-    case GEQ =>
-      simp only [exprOK, Bool.and_eq_true] at h
-      exact inv_rel (o := .geq) (ihl.1 h.1) (ihr.1 h.2) rfl (Or.inr rfl) rfl rfl
-        (fun hh => by simp only [Op.lvl]; fsimp; simp [hh]) (fun hh => by osimp; simp [hh])
-    case AND =>
-      simp only [exprOK, Bool.and_eq_true] at h
-      have hl := ihl.1 h.1; have hr := ihr.1 h.2
-      obtain ⟨h1, h2⟩ := relLogic_and (has := p.hasAnd) hl hr
-      refine ⟨h1, h2, ?_, ?_⟩
-      · cases hh : p.hasAnd
-        · exact Nat.le_trans (floor_le_7 _) (by simp [genDoc, relLogic, hh, lvl, topLvl])
-        · simp [genDoc, relLogic, binop, hh, lvl, Op.lvl]; fsimp; simp [hh]
-      · intro hop; cases hh : p.hasAnd
-        · simp [genDoc, relLogic, hh, heads]
-        · revert hop; osimp; simp [hh]
-    case OR =>
-      simp only [exprOK, Bool.and_eq_true] at h
-      have hl := ihl.1 h.1; have hr := ihr.1 h.2
-      obtain ⟨h1, h2⟩ := relLogic_or (has := p.hasOr) hl hr
-      refine ⟨h1, h2, ?_, ?_⟩
-      · cases hh : p.hasOr
-        · exact Nat.le_trans (floor_le_7 _) (by simp [genDoc, relLogic, hh, lvl, topLvl])
-        · simp [genDoc, relLogic, binop, hh, lvl, Op.lvl]; fsimp; simp [hh]
-      · intro hop; cases hh : p.hasOr
-        · simp [genDoc, relLogic, hh, heads]
-        · revert hop; osimp; simp [hh]
-    case XOR =>
-      simp only [exprOK, Bool.and_eq_true] at h
-      exact inv_call2 (f := p.xor) (ihl.1 h.1) (ihr.1 h.2) (by simp [genDoc, relLogic, hs.1, Profile.opStr]) (by simp [evalAst])
-    case NOT =>
-      simp only [exprOK, Bool.and_eq_true] at h
-      have hl := ihl.1 h.1
-      cases hh : p.hasNot
-      · exact inv_call1 (f := p.not_) hl (by simp [genDoc, hh]) (by simp [evalAst, hh])
-      · obtain ⟨h7, hhd⟩ := opexpr_operand hl
-        refine ⟨?_, ?_, ?_, ?_⟩
-        · simp [genDoc, hh, ok, hl.ok, hhd]; exact h7
-        · simp [genDoc, hh, evalDoc, evalAst, hl.ev]
-        · simp [genDoc, hh, lvl]; exact floor_le_7 _
-        · osimp; simp [hh]
-    case PLUS =>
-      simp only [exprOK, Bool.and_eq_true, Bool.or_eq_true] at h
-      have hl := ihl.1 h.1
-      cases r with
-      | nul =>
-        obtain ⟨h7, hhd⟩ := opexpr_operand hl
-        refine ⟨by simp [genDoc, hl.ok], by simp [genDoc, evalAst, hl.ev], ?_, fun _ => by simpa [genDoc] using hhd⟩
-        simp only [genDoc]; exact Nat.le_trans (floor_le_7 _) h7
-      | cn v =>
-        have hr := ihr.1 (by simpa [isNul] using h.2)
-        obtain ⟨h1, h2⟩ := plus_inv hl hr
-        exact ⟨by simpa [genDoc] using h1, by simpa [genDoc, evalAst] using h2, by simp [genDoc, binop, lvl, Op.lvl]; fsimp, by osimp⟩
-      | ci v =>
-        have hr := ihr.1 (by simpa [isNul] using h.2)
-        obtain ⟨h1, h2⟩ := plus_inv hl hr
-        exact ⟨by simpa [genDoc] using h1, by simpa [genDoc, evalAst] using h2, by simp [genDoc, binop, lvl, Op.lvl]; fsimp, by osimp⟩
-      | node ty2 a b =>
-        have hr := ihr.1 (by simpa [isNul] using h.2)
-        obtain ⟨h1, h2⟩ := plus_inv hl hr
-        exact ⟨by simpa [genDoc] using h1, by simpa [genDoc, evalAst] using h2, by simp [genDoc, binop, lvl, Op.lvl]; fsimp, by osimp⟩
-    case MINUS =>
-      simp only [exprOK, Bool.and_eq_true, Bool.or_eq_true] at h
-      have hl := ihl.1 h.1
-      cases r with
-      | nul =>
-        obtain ⟨h1, h2, h6, h7⟩ := minusUnary_inv hl
-        refine ⟨by simpa [genDoc] using h1, by simpa [genDoc, evalAst] using h2, ?_, by osimp⟩
-        simp only [genDoc]
-        cases hm : mult l
-        · have := h7 hm; exact Nat.le_trans (floor_le_7 _) this
-        · refine Nat.le_trans ?_ h6; fsimp; simp [mult, isTimes, isDivide, isLogB, isTy] at hm; simp [hm]
-      | cn v =>
-        have hr := ihr.1 (by simpa [isNul] using h.2)
-        obtain ⟨h1, h2⟩ := minus_inv hl hr
-        exact ⟨by simpa [genDoc] using h1, by simpa [genDoc, evalAst] using h2, by simp [genDoc, binop, lvl, Op.lvl]; fsimp, by osimp⟩
-      | ci v =>
-        have hr := ihr.1 (by simpa [isNul] using h.2)
-        obtain ⟨h1, h2⟩ := minus_inv hl hr
-        exact ⟨by simpa [genDoc] using h1, by simpa [genDoc, evalAst] using h2, by simp [genDoc, binop, lvl, Op.lvl]; fsimp, by osimp⟩
-      | node ty2 a b =>
-        have hr := ihr.1 (by simpa [isNul] using h.2)
-        obtain ⟨h1, h2⟩ := minus_inv hl hr
-        exact ⟨by simpa [genDoc] using h1, by simpa [genDoc, evalAst] using h2, by simp [genDoc, binop, lvl, Op.lvl]; fsimp, by osimp⟩
-    case TIMES =>
-      simp only [exprOK, Bool.and_eq_true] at h
-      obtain ⟨h1, h2⟩ := times_inv (ihl.1 h.1) (ihr.1 h.2)
-      exact ⟨by simpa [genDoc] using h1, by simpa [genDoc, evalAst] using h2, by simp [genDoc, binop, lvl, Op.lvl]; fsimp, by osimp⟩
-    case DIVIDE =>
-      simp only [exprOK, Bool.and_eq_true] at h
-      obtain ⟨h1, h2⟩ := divide_inv (ihl.1 h.1) (ihr.1 h.2)
-      exact ⟨by simpa [genDoc] using h1, by simpa [genDoc, evalAst] using h2, by simp [genDoc, binop, lvl, Op.lvl]; fsimp, by osimp⟩
-    all_goals sorry
+    have hpiece : exprOK .piece (.node ty l r) = true → PieceInv p I (.node ty l r) := by
+      intro h
+      simp only [exprOK, Bool.and_eq_true, decide_eq_true_eq] at h
+      obtain ⟨⟨hty, hl⟩, hr⟩ := h
+      subst hty
+      have hv := ihl.1 hl; have hc := ihr.1 hr
+      refine ⟨fun e he => ?_, fun e => ?_⟩
+      · have := piece_ok hs hv hc he
+        simpa [genDoc, pieceDoc, setElse] using this
+      · simp [genDoc, evalAst, pieceDoc, setElse, evalDoc, hv.ev, hc.ev]
+    have hexpr : exprOK .expr (.node ty l r) = true → Inv p I (.node ty l r) := by
+      intro h
+      cases ty
+      case EQ =>
+        simp only [exprOK, Bool.and_eq_true] at h
+        have hl := ihl.1 h.1; have hr := ihr.1 h.2
+        exact inv_rel (o := .eq) hl hr rfl (Or.inl rfl) rfl (fun _ => by simp [evalAst, hl.ev, hr.ev])
+          (fun hh => by simp only [Op.lvl]; fsimp; simp [hh]) (fun hh => by osimp; simp [hh])
+      case NEQ =>
+        simp only [exprOK, Bool.and_eq_true] at h
+        have hl := ihl.1 h.1; have hr := ihr.1 h.2
+        exact inv_rel (o := .neq) hl hr rfl (Or.inl rfl) rfl (fun _ => by simp [evalAst, hl.ev, hr.ev])
+          (fun hh => by simp only [Op.lvl]; fsimp; simp [hh]) (fun hh => by osimp; simp [hh])
+      case LT =>
+        simp only [exprOK, Bool.and_eq_true] at h
+        have hl := ihl.1 h.1; have hr := ihr.1 h.2
+        exact inv_rel (o := .lt) hl hr rfl (Or.inr rfl) rfl (fun _ => by simp [evalAst, hl.ev, hr.ev])
+          (fun hh => by simp only [Op.lvl]; fsimp; simp [hh]) (fun hh => by osimp; simp [hh])
+      case LEQ =>
+        simp only [exprOK, Bool.and_eq_true] at h
+        have hl := ihl.1 h.1; have hr := ihr.1 h.2
+        exact inv_rel (o := .leq) hl hr rfl (Or.inr rfl) rfl (fun _ => by simp [evalAst, hl.ev, hr.ev])
+          (fun hh => by simp only [Op.lvl]; fsimp; simp [hh]) (fun hh => by osimp; simp [hh])
+      case GT =>
+        simp only [exprOK, Bool.and_eq_true] at h
+        have hl := ihl.1 h.1; have hr := ihr.1 h.2
+        exact inv_rel (o := .gt) hl hr rfl (Or.inr rfl) rfl (fun _ => by simp [evalAst, hl.ev, hr.ev])
+          (fun hh => by simp only [Op.lvl]; fsimp; simp [hh]) (fun hh => by osimp; simp [hh])
+      case GEQ =>
+        simp only [exprOK, Bool.and_eq_true] at h
+        have hl := ihl.1 h.1; have hr := ihr.1 h.2
+        exact inv_rel (o := .geq) hl hr rfl (Or.inr rfl) rfl (fun _ => by simp [evalAst, hl.ev, hr.ev])
+          (fun hh => by simp only [Op.lvl]; fsimp; simp [hh]) (fun hh => by osimp; simp [hh])
+      case AND =>
+        simp only [exprOK, Bool.and_eq_true] at h
+        have hl := ihl.1 h.1; have hr := ihr.1 h.2
+        have h1 := relLogic_and (has := p.hasAnd) hl hr
+        refine ⟨h1, fun _ => by simp [evalAst, genDoc, hl.ev, hr.ev], ?_, ?_⟩
+        · cases hh : p.hasAnd
+          · exact Nat.le_trans (floor_le_7 _) (by simp [genDoc, relLogic, hh, lvl, topLvl])
+          · simp [genDoc, relLogic, binop, hh, lvl, Op.lvl]; fsimp; simp [hh]
+        · intro hop; cases hh : p.hasAnd
+          · simp [genDoc, relLogic, hh, heads]
+          · revert hop; osimp; simp [hh]
+      case OR =>
+        simp only [exprOK, Bool.and_eq_true] at h
+        have hl := ihl.1 h.1; have hr := ihr.1 h.2
+        have h1 := relLogic_or (has := p.hasOr) hl hr
+        refine ⟨h1, fun _ => by simp [evalAst, genDoc, hl.ev, hr.ev], ?_, ?_⟩
+        · cases hh : p.hasOr
+          · exact Nat.le_trans (floor_le_7 _) (by simp [genDoc, relLogic, hh, lvl, topLvl])
+          · simp [genDoc, relLogic, binop, hh, lvl, Op.lvl]; fsimp; simp [hh]
+        · intro hop; cases hh : p.hasOr
+          · simp [genDoc, relLogic, hh, heads]
+          · revert hop; osimp; simp [hh]
+      case XOR =>
+        simp only [exprOK, Bool.and_eq_true] at h
+        have hl := ihl.1 h.1; have hr := ihr.1 h.2
+        exact inv_call2 (f := p.xor) hl hr (by simp [genDoc, relLogic, hs.1, Profile.opStr]) (fun _ => by simp [evalAst, hl.ev, hr.ev])
+      case NOT =>
+        simp only [exprOK, Bool.and_eq_true] at h
+        have hl := ihl.1 h.1
+        cases hh : p.hasNot
+        · exact inv_call1 (f := p.not_) hl (by simp [genDoc, hh]) (fun _ => by simp [evalAst, hh, hl.ev])
+        · obtain ⟨h7, hhd⟩ := opexpr_operand hl
+          refine ⟨?_, fun _ => ?_, ?_, ?_⟩
+          · simp [genDoc, hh, ok, hl.ok, hhd]; exact h7
+          · simp [genDoc, hh, evalDoc, evalAst, hl.ev]
+          · simp [genDoc, hh, lvl]; exact floor_le_7 _
+          · osimp; simp [hh]
+      case PLUS =>
+        simp only [exprOK, Bool.and_eq_true, Bool.or_eq_true] at h
+        have hl := ihl.1 h.1
+        cases hn : isNul r
+        · have hr := ihr.1 (by simpa [hn] using h.2)
+          have h1 := plus_inv hl hr
+          exact ⟨by simpa [genDoc, hn] using h1, fun _ => by simp [genDoc, evalAst, hn, hl.ev, hr.ev, Op.sem],
+            by simp [genDoc, hn, binop, lvl, Op.lvl]; simp [floor, isPiecewise, isOr, isAnd, isRel, sum2, mult, isMinus, isTy, isPlus, isTimes, isDivide, isLogB, hasRight_node, hn, leftOf], by simp [isOpExpr, isNeg, isLogical, isXor, isPower, isRoot, isPiecewise, isOr, isAnd, isRel, isMinus, isTy, isPlus, isTimes, isDivide, isLogB, hasRight_node, hn]⟩
+        · obtain ⟨h7, hhd⟩ := opexpr_operand hl
+          refine ⟨by simp [genDoc, hn, hl.ok], fun _ => by simp [genDoc, evalAst, hn, hl.ev], ?_, fun _ => by simpa [genDoc, hn] using hhd⟩
+          simp only [genDoc, hn, if_true]; exact Nat.le_trans (floor_le_7 _) h7
+      case MINUS =>
+        simp only [exprOK, Bool.and_eq_true, Bool.or_eq_true] at h
+        have hl := ihl.1 h.1
+        cases hn : isNul r
+        · have hr := ihr.1 (by simpa [hn] using h.2)
+          have h1 := minus_inv hl hr
+          exact ⟨by simpa [genDoc, hn] using h1, fun _ => by simp [genDoc, evalAst, hn, hl.ev, hr.ev, Op.sem],
+            by simp [genDoc, hn, binop, lvl, Op.lvl]; simp [floor, isPiecewise, isOr, isAnd, isRel, sum2, mult, isMinus, isTy, isPlus, isTimes, isDivide, isLogB, hasRight_node, hn, leftOf], by simp [isOpExpr, isNeg, isLogical, isXor, isPower, isRoot, isPiecewise, isOr, isAnd, isRel, isMinus, isTy, isPlus, isTimes, isDivide, isLogB, hasRight_node, hn]⟩
+        · obtain ⟨h1, h6, h7⟩ := minusUnary_inv hl
+          refine ⟨by simpa [genDoc, hn] using h1, fun _ => by simp [genDoc, evalAst, hn, hl.ev], ?_, by osimp⟩
+          simp only [genDoc, hn, if_true]
+          cases hm : mult l
+          · have := h7 hm; exact Nat.le_trans (floor_le_7 _) this
+          · refine Nat.le_trans ?_ h6; simp [mult, isTimes, isDivide, isLogB, isTy] at hm; simp [floor, isPiecewise, isOr, isAnd, isRel, sum2, mult, isMinus, isTy, isPlus, isTimes, isDivide, isLogB, hasRight_node, hn, leftOf, hm]
+      case TIMES =>
+        simp only [exprOK, Bool.and_eq_true] at h
+        have hl := ihl.1 h.1; have hr := ihr.1 h.2
+        have h1 := times_inv hl hr
+        exact ⟨by simpa [genDoc] using h1, fun _ => by simp [genDoc, evalAst, hl.ev, hr.ev, Op.sem], by simp [genDoc, binop, lvl, Op.lvl]; fsimp, by osimp⟩
+      case DIVIDE =>
+        simp only [exprOK, Bool.and_eq_true] at h
+        have hl := ihl.1 h.1; have hr := ihr.1 h.2
+        have h1 := divide_inv hl hr
+        exact ⟨by simpa [genDoc] using h1, fun _ => by simp [genDoc, evalAst, hl.ev, hr.ev, Op.sem], by simp [genDoc, binop, lvl, Op.lvl]; fsimp, by osimp⟩
+      case POWER =>
+        simp only [exprOK, Bool.and_eq_true] at h
+        have hl := ihl.1 h.1; have hr := ihr.1 h.2
+        by_cases c1 : isNumber (render p (genDoc p r)) 1 2 = true
+        · exact inv_call1 (f := p.sqrt) hl (by simp [genDoc, c1]) (fun _ => by simp [evalAst, gen, c1, hl.ev])
+        · by_cases c2 : (isNumber (render p (genDoc p r)) 2 1 && p.square ≠ "") = true
+          · exact inv_call1 (f := p.square) hl (by simp only [genDoc, c1, c2]; simp) (fun _ => by simp only [evalAst, gen, c1, c2]; simp [hl.ev])
+          · exact inv_call2 (f := p.power) hl hr (by simp only [genDoc, c1, c2]; simp) (fun _ => by simp only [evalAst, gen, c1, c2]; simp [hl.ev, hr.ev])
+      case ROOT =>
+        simp only [exprOK] at h
+        cases hn : isNul r
+        · simp only [hn, Bool.false_eq_true, if_false, Bool.and_eq_true] at h
+          have hr := ihr.1 h.2
+          -- `l` is `DEGREE d`
+          cases l with
+          | nul => simp [exprOK] at h
+          | cn v => simp [exprOK] at h
+          | ci v => simp [exprOK] at h
+          | node ty' d r' =>
+            have hd' := h.1
+            simp only [exprOK, Bool.and_eq_true, decide_eq_true_eq] at hd'
+            obtain ⟨⟨hty, hdok⟩, _⟩ := hd'
+            subst hty
+            have hd := (ihl.2.2.2 _ _ _ rfl).1 hdok
+            have hgl : genDoc p (.node .DEGREE d r') = genDoc p d := by simp [genDoc]
+            have hel : ∀ els, evalAst p I els (.node .DEGREE d r') = evalDoc I (genDoc p d) := fun els => by simp [evalAst, hd.ev]
+            by_cases c1 : isNumber (render p (genDoc p d)) 2 1 = true
+            · exact inv_call1 (f := p.sqrt) hr (by simp only [genDoc, hn, hgl] at *; simp [c1])
+                (fun _ => by simp only [evalAst, gen, hn, hgl]; simp [c1, hr.ev])
+            · have hk := root_degree_ok (p := p) (I := I) hd
+              refine ⟨?_, fun _ => ?_, ?_, fun _ => ?_⟩
+              · simp only [genDoc, hn] at *; simp [c1, ok, hr.ok, leftOf, hk]
+              · simp only [evalAst, gen, genDoc, hn]; simp [c1, evalDoc, hr.ev, hd.ev, Op.sem]
+              · simp only [genDoc, hn]; simp [c1, lvl]; exact Nat.le_trans (floor_le_7 _) (by decide)
+              · simp only [genDoc, hn]; simp [c1, heads]
+        · simp only [hn, if_true] at h
+          have hl := ihl.1 h
+          exact inv_call1 (f := p.sqrt) hl (by simp [genDoc, hn]) (fun _ => by simp [evalAst, hn, hl.ev])
+      case LOG =>
+        simp only [exprOK] at h
+        cases hn : isNul r
+        · simp only [hn, Bool.false_eq_true, if_false, Bool.and_eq_true] at h
+          have hr := ihr.1 h.2
+          cases l with
+          | nul => simp [exprOK] at h
+          | cn v => simp [exprOK] at h
+          | ci v => simp [exprOK] at h
+          | node ty' d r' =>
+            have hd' := h.1
+            simp only [exprOK, Bool.and_eq_true, decide_eq_true_eq] at hd'
+            obtain ⟨⟨hty, hdok⟩, _⟩ := hd'
+            subst hty
+            have hd := (ihl.2.2.2 _ _ _ rfl).1 hdok
+            by_cases c1 : isNumber (render p (genDoc p d)) 10 1 = true
+            · exact inv_call1 (f := p.log10) hr (by simp only [genDoc, hn] at *; simp [c1])
+                (fun _ => by simp only [evalAst, gen, genDoc, hn]; simp [c1, hr.ev])
+            · refine ⟨?_, fun _ => ?_, ?_, ?_⟩
+              · simp only [genDoc, hn] at *; simp [c1, ok, hr.ok, hd.ok, Op.isBin, lvl, Op.lvl, reqR, Op.assoc, topLvl, heads]
+              · simp only [evalAst, gen, genDoc, hn]; simp [c1, evalDoc, hr.ev, hd.ev, Op.sem]
+              · simp only [genDoc, hn]; simp [c1, lvl, Op.lvl]
+                simp [floor, isPiecewise, isOr, isAnd, isRel, sum2, mult, isMinus, isTy, isPlus, isTimes, isDivide, isLogB, hasRight_node, hn]
+              · simp [isOpExpr, isNeg, isLogical, isXor, isPower, isRoot, isPiecewise, isOr, isAnd, isRel, isMinus, isTy, isPlus, isTimes, isDivide, isLogB, hasRight_node, hn]
+        · simp only [hn, if_true] at h
+          have hl := ihl.1 h
+          exact inv_call1 (f := p.log10) hl (by simp [genDoc, hn]) (fun _ => by simp [evalAst, hn, hl.ev])
+      case PIECEWISE =>
+        simp only [exprOK, Bool.and_eq_true, Bool.or_eq_true] at h
+        have hp := ihl.2.1 h.1
+        have hlast : ok p.style (elseOf p r (genDoc p r)) = true
+            ∧ evalAst p I (I.atom p.nan) r = evalDoc I (elseOf p r (genDoc p r)) ∨ isNul r = true := by
+          rcases h.2 with hn | hl
+          · exact Or.inr hn
+          · have := ihr.2.2.1 hl; exact Or.inl ⟨this.ok, this.ev⟩
+        refine ⟨?_, fun _ => ?_, ?_, ?_⟩
+        · simp only [genDoc]
+          rcases hlast with ⟨h1, _⟩ | hn
+          · exact hp.ok _ h1
+          · rw [isNul_eq hn]; exact hp.ok _ rfl
+        · simp only [genDoc, evalAst]
+          rcases hlast with ⟨_, h2⟩ | hn
+          · cases hn : isNul r
+            · simp only [Bool.false_eq_true, if_false]; rw [h2]; exact hp.ev _
+            · rw [isNul_eq hn]; simp only [isNul, if_true]
+              have := hp.ev (.atom false p.nan); simpa [elseOf, evalDoc] using this
+          · rw [isNul_eq hn]; simp only [isNul, if_true]
+            have := hp.ev (.atom false p.nan); simpa [elseOf, evalDoc] using this
+        · fsimp; simp [hs.2.2.1]
+        · osimp; simp [hs.2.2.1]
+      case MIN =>
+        simp only [exprOK, Bool.and_eq_true] at h
+        have hl := ihl.1 h.1; have hr := ihr.1 h.2
+        exact inv_call2 hl hr rfl (fun _ => by simp [evalAst, hl.ev, hr.ev])
+      case MAX =>
+        simp only [exprOK, Bool.and_eq_true] at h
+        have hl := ihl.1 h.1; have hr := ihr.1 h.2
+        exact inv_call2 hl hr rfl (fun _ => by simp [evalAst, hl.ev, hr.ev])
+      case REM =>
+        simp only [exprOK, Bool.and_eq_true] at h
+        have hl := ihl.1 h.1; have hr := ihr.1 h.2
+        exact inv_call2 hl hr rfl (fun _ => by simp [evalAst, hl.ev, hr.ev])
+      case TRUE => exact inv_atom false p.true_ _ (by simp [genDoc]) (fun _ => by simp [evalAst, atomSem]) (by fsimp)
+      case FALSE => exact inv_atom false p.false_ _ (by simp [genDoc]) (fun _ => by simp [evalAst, atomSem]) (by fsimp)
+      case E => exact inv_atom false p.e _ (by simp [genDoc]) (fun _ => by simp [evalAst, atomSem]) (by fsimp)
+      case PI => exact inv_atom false p.pi _ (by simp [genDoc]) (fun _ => by simp [evalAst, atomSem]) (by fsimp)
+      case INF => exact inv_atom false p.inf _ (by simp [genDoc]) (fun _ => by simp [evalAst, atomSem]) (by fsimp)
+      case NAN => exact inv_atom false p.nan _ (by simp [genDoc]) (fun _ => by simp [evalAst, atomSem]) (by fsimp)
+      case EQUALITY => simp [exprOK] at h
+      case DIFF => simp [exprOK] at h
+      case BVAR => simp [exprOK] at h
+      case DEGREE => simp [exprOK] at h
+      case LOGBASE => simp [exprOK] at h
+      case PIECE => simp [exprOK] at h
+      case OTHERWISE => simp [exprOK] at h
+      all_goals
+        simp only [exprOK, Bool.and_eq_true] at h
+        have hl := ihl.1 h.1
+        exact inv_call1 hl rfl (fun _ => by simp [evalAst, hl.ev])
+    refine ⟨hexpr, hpiece, ?_, fun ty' a b h => by cases h; exact ⟨ihl.1, ihr.1⟩⟩
+    · -- last position
+      intro h
+      simp only [exprOK, Bool.or_eq_true, Bool.and_eq_true, decide_eq_true_eq] at h
+      rcases h with (⟨⟨hty, hl⟩, hr⟩ | ⟨⟨hty, hl⟩, hr⟩) | ⟨⟨hty, hl⟩, hr⟩
+      · have hp := hpiece (by simp [exprOK, hty, hl, hr])
+        subst hty
+        refine ⟨?_, ?_⟩
+        · simpa [elseOf] using hp.ok (.atom false p.nan) rfl
+        · have := hp.ev (.atom false p.nan)
+          simpa [elseOf, evalDoc] using this
+      · subst hty
+        have hx := ihl.1 hl
+        refine ⟨by simpa [elseOf, genDoc] using hx.ok, ?_⟩
+        simp [elseOf, genDoc, evalAst, hx.ev]
+      · subst hty
+        have := hexpr (by simp [exprOK, hl, hr])
+        exact ⟨by simpa [elseOf] using this.ok, by simpa [elseOf] using this.ev (I.atom p.nan)⟩
 
 end Cellml.Gen
